@@ -1,5 +1,7 @@
 package go9p
 
+import "sync"
+
 // Server-side harness kit: users, a scripted file-server implementation that logs every call, and helpers that
 // build a connection the way the repository's own unit tests do.
 
@@ -47,6 +49,9 @@ func (p *vxUsersT) Uname2User(uname string) User {
 func (p *vxUsersT) Gid2Group(gid int) Group        { return &vxGroupT{gid, "g"} }
 func (p *vxUsersT) Gname2Group(gname string) Group { return &vxGroupT{0, gname} }
 
+// vxClock orders implementation calls and transport writes in one sequence (harness bookkeeping).
+var vxClock int
+
 // ---- scripted implementation ----
 
 const (
@@ -66,6 +71,8 @@ type vxCall struct {
 	fidno  uint32
 	user   User
 	locks  int
+	seq    int
+	tag    uint16
 }
 
 type vxOps struct {
@@ -88,12 +95,15 @@ type vxOps struct {
 	closed    int
 	lockViol  int
 	echo      bool
+	mu         sync.Mutex // the implementation's own lock (gives its FlushOp a happens-before edge to its workers)
+	inprogress map[*SrvReq]bool
+	savedCh   chan *SrvReq // requests the implementation left unanswered (outcome vxOutNone)
 	gate      map[uint16]chan bool // per-tag gates: the implementation parks until released
 	onDestroy func(fid *SrvFid)    // optional: called from FidDestroy after the fid was logged
 }
 
 func (o *vxOps) note(op string, req *SrvReq) {
-	c := vxCall{op: op, req: req, fid: req.Fid, afid: req.Afid, newfid: req.Newfid, locks: vxHeldLocks()}
+	c := vxCall{op: op, req: req, fid: req.Fid, afid: req.Afid, newfid: req.Newfid, locks: vxHeldLocks(), tag: req.Tc.Tag}
 	if req.Fid != nil {
 		c.fidno = req.Fid.fid
 		c.user = req.Fid.User
@@ -102,8 +112,15 @@ func (o *vxOps) note(op string, req *SrvReq) {
 	if c.locks != 0 {
 		o.lockViol++
 	}
+	vxClock++
+	c.seq = vxClock
 	o.calls = append(o.calls, c)
 	vxUnlock()
+	if o.inprogress != nil {
+		o.mu.Lock()
+		o.inprogress[req] = true
+		o.mu.Unlock()
+	}
 	vxEvent("ops:" + op)
 	if o.hook != nil {
 		o.hook(op, req)
@@ -122,6 +139,10 @@ func (o *vxOps) answer(req *SrvReq, ok func()) {
 	case vxOutErr:
 		req.RespondError(&Error{o.errText, 42})
 	case vxOutNone:
+		// hand the unanswered request over through a channel (a real implementation would synchronise too)
+		if o.savedCh != nil {
+			o.savedCh <- req
+		}
 	case vxOutTwice:
 		ok()
 		ok()
@@ -265,10 +286,17 @@ func (o vxOpsAuth) AuthWrite(afid *SrvFid, offset uint64, data []byte) (int, err
 // with FlushOp
 type vxOpsFlush struct{ *vxOps }
 
+// A well-behaved FlushOp cancels only requests it has been handed (it synchronises with its own workers).
 func (o vxOpsFlush) Flush(req *SrvReq) {
+	if vxHeldLocks() != 0 { // C08: no library lock is held across a FlushOp call
+		o.lockViol++
+	}
+	o.mu.Lock()
+	known := o.inprogress[req]
 	o.flushed = append(o.flushed, req)
+	o.mu.Unlock()
 	vxEvent("ops:flush")
-	if o.flushCall {
+	if o.flushCall && known {
 		req.Flush()
 	}
 }
@@ -278,8 +306,14 @@ type vxOpsAuthFlush struct {
 }
 
 func (o vxOpsAuthFlush) Flush(req *SrvReq) {
+	if vxHeldLocks() != 0 { // C08: no library lock is held across a FlushOp call
+		o.lockViol++
+	}
+	o.mu.Lock()
+	known := o.inprogress[req]
 	o.flushed = append(o.flushed, req)
-	if o.flushCall {
+	o.mu.Unlock()
+	if o.flushCall && known {
 		req.Flush()
 	}
 }
@@ -301,10 +335,12 @@ func vxNewKit(withAuth bool, withFlush bool, msize uint32, dotu bool) *vxKit {
 	var impl interface{}
 	switch {
 	case withAuth && withFlush:
+		k.ops.inprogress = map[*SrvReq]bool{}
 		impl = vxOpsAuthFlush{vxOpsAuth{k.ops}}
 	case withAuth:
 		impl = vxOpsAuth{k.ops}
 	case withFlush:
+		k.ops.inprogress = map[*SrvReq]bool{}
 		impl = vxOpsFlush{k.ops}
 	default:
 		impl = k.ops
